@@ -1,6 +1,6 @@
 (** Global versions of the proof tactics (the ones inside WorkersInvProofs' section are local). *)
 From Coq Require Import ZArith List Bool Arith Lia.
-From Texel Require Import Workers.Workers Workers.WorkersLemmas Workers.WorkersInv Workers.WorkersInvProofs.
+From Texel Require Import Workers.Workers Workers.WorkersLemmas Workers.WorkersInv Workers.WorkersInvFacts.
 Import ListNotations.
 
 Ltac phase_facts' I :=
@@ -92,4 +92,14 @@ Ltac dmatch :=
   repeat match goal with
   | |- context [match ?x with _ => _ end] => destruct x
   | H : context [match ?x with _ => _ end] |- _ => destruct x
+  end.
+
+Ltac fwd_mem :=
+  repeat match goal with
+  | E : remove_tid ?x ?rest = [], Hne : ?c <> ?x, S1 : context [mem_tid ?c ?rest] |- _ =>
+      rewrite (remove_nil_mem c x rest E Hne) in S1
+  | E : remove_tid ?x ?rest = ?a :: ?l, Hne : ?c <> ?x |- context [mem_tid ?c (?a :: ?l)] =>
+      rewrite <- E, (mem_remove_other c x rest Hne)
+  | E : remove_tid ?x ?rest = ?a :: ?l |- context [mem_tid ?x (?a :: ?l)] =>
+      rewrite <- E, (mem_remove_same x rest)
   end.
